@@ -290,7 +290,7 @@ func (s *session) reopen(t interface{ Fatalf(string, ...interface{}) }) {
 			}
 		}
 	}
-	if err := s.st.Close(); err != nil {
+	if err := closeStore(s.st); err != nil {
 		t.Fatalf("close store: %v", err)
 	}
 	s.st = mustOpenBadger(t, s.dir)
@@ -315,7 +315,7 @@ func (s *session) close() {
 			}
 		}
 	}
-	s.st.Close()
+	closeStore(s.st)
 	if s.dir != "" {
 		removeAll(s.dir)
 	}
